@@ -11,6 +11,7 @@ import Gzx.Proofs.QRPlacement
 import Gzx.Proofs.QRMatrix
 import Gzx.Proofs.QRCodewords
 import Gzx.Proofs.QRReadback
+import Gzx.Proofs.QRPenalty
 import Gzx.Proofs.QRCount0
 import Gzx.Proofs.QRCount1
 import Gzx.Proofs.QRCount2
@@ -325,6 +326,39 @@ theorem mask_periodic (k x y : Nat) : maskBit k (x + 12) y = maskBit k x y ∧ m
   · exact small k hk8
   · unfold maskBit
     split <;> first | omega | exact ⟨rfl, rfl⟩
+
+/-! ### mask evaluation (Table 11) -/
+
+/-- N1: the run penalty of every row and column line is the sum over its maximal same-colour
+    runs of `3 + (length − 5)` for runs of at least five modules (and the runs partition the line) -/
+theorem penalty_n1 (row : List Bool) :
+    runPenalty row none 0 = sumN ((lineRuns row).map runScore) ∧ sumN (lineRuns row) = row.length :=
+  ⟨penalty_n1_line row, lineRuns_sum row⟩
+
+/-- N2: a solid m x n block scores 3·(m−1)·(n−1), the standard's block formula -/
+theorem penalty_n2 (c : Bool) (m n : Nat) (hm : 1 ≤ m) (hn : 1 ≤ n) :
+    penalty2 (List.replicate m (solidRow c n)) = 3 * ((m - 1) * (n - 1)) := penalty_n2_block c m n hm hn
+
+/-- N3: per line, the number of positions where 1:1:3:1:1 (dark-light-dark-light-dark) starts with
+    four light modules (or the symbol edge) before or after it -/
+theorem penalty_n3 (row : List Bool) :
+    finderLike [] row =
+      ((List.range row.length).filter (fun i => n3Here ((row.take i).reverse) (row.drop i))).length := by
+  have := penalty_n3_line row []
+  simpa using this
+
+/-- N4: 10·k for a dark proportion between 50 ± 5k % and 50 ± 5(k+1) % -/
+theorem penalty_n4 (m : List (List Bool)) (hpos : 0 < QRRef.sumL (m.map List.length)) :
+    ∃ k, penalty4 m = 10 * k ∧
+      k * QRRef.sumL (m.map List.length) ≤
+        10 * (if 2 * QRRef.sumL (m.map (fun r => r.count true)) ≥ QRRef.sumL (m.map List.length)
+              then 2 * QRRef.sumL (m.map (fun r => r.count true)) - QRRef.sumL (m.map List.length)
+              else QRRef.sumL (m.map List.length) - 2 * QRRef.sumL (m.map (fun r => r.count true))) ∧
+      10 * (if 2 * QRRef.sumL (m.map (fun r => r.count true)) ≥ QRRef.sumL (m.map List.length)
+              then 2 * QRRef.sumL (m.map (fun r => r.count true)) - QRRef.sumL (m.map List.length)
+              else QRRef.sumL (m.map List.length) - 2 * QRRef.sumL (m.map (fun r => r.count true)))
+        < (k + 1) * QRRef.sumL (m.map List.length) :=
+  penalty_n4_spec m _ _ rfl rfl hpos
 
 /-! ### non-vacuity -/
 
